@@ -807,7 +807,7 @@ func genSpec(r *Rng, o genOpts) *MsgSpec {
 			} else if o.textHeavy || r.Chance(40) {
 				g.Values = append(g.Values, genText(r, 8))
 			} else {
-				g.Values = append(g.Values, genHeaderValue(r))
+				g.Values = append(g.Values, genSetterValue(r))
 			}
 		}
 		spc.Gen = append(spc.Gen, g)
@@ -822,7 +822,7 @@ func genSpec(r *Rng, o genOpts) *MsgSpec {
 		case 2:
 			spc.Gen = append(spc.Gen, GenOp{Conv: "org", Values: []string{genText(r, 5)}})
 		case 3:
-			spc.Gen = append(spc.Gen, GenOp{Conv: "ua", Values: []string{genHeaderValue(r)}})
+			spc.Gen = append(spc.Gen, GenOp{Conv: "ua", Values: []string{genSetterValue(r)}})
 		case 4:
 			spc.Gen = append(spc.Gen, GenOp{Conv: "msgid", Values: []string{[]string{"fixed.id@example.com", genText(r, 2), "a b@c", "x@y>\r\nInjected: 1"}[r.Intn(4)]}})
 		default:
